@@ -74,6 +74,8 @@ def run_case(case: dict) -> dict:
     viols: list[dict] = []
     try:
         states = [None] + [rm.random_state(ref, rng) for _ in range(3)]
+        # named states are mappings: their key order is free
+        states = [st if st is None else dict(rng.sample(list(st.items()), len(st))) for st in states]
         times = [0.0, round(rng.uniform(0.1, 5.0), 3)]
         for st in states:
             for t in times:
@@ -88,6 +90,10 @@ def run_case(case: dict) -> dict:
             [rm.random_state(ref, rng) for _ in range(3)],
             index=[0.0, 0.5, 2.25],
         )[ref.variables]
+        if len(ref.variables) > 1 and rng.random() < 0.5:
+            # a state table is labelled; its column order is the caller's business (sorted, built from a dict, ...)
+            frame = frame[rng.sample(list(ref.variables), len(ref.variables))]
+            counters_cols = 1
         args_tc = model.get_args_time_course(frame)
         model.get_args_time_course(frame, include_readouts=True)
         model.get_fluxes_time_course(frame)
@@ -111,6 +117,7 @@ def run_case(case: dict) -> dict:
         viols.append(core.viol(f"{w['where']}: {w['what']}", None, witness=w, spec=spec))
     counters = dict(ct.COUNT)
     counters["cases_with_integration"] = int(bool(case.get("integrate")))
+    counters["state_table_columns_not_in_declaration_order"] = int("counters_cols" in locals())
     counters["integration_budget_exhausted"] = int("counters_extra" in locals())
     for k, v in feats.items():
         counters[f"feature:{k}"] = int(v)
